@@ -371,6 +371,73 @@ fn main() {
         }
     }
 
+    // ---- deep and slash-heavy paths: hundreds and thousands of '/' (as runs of
+    // empty segments, as real one-letter segments, mixed) in front of tails that
+    // contain dot segments, encoded slashes and ordinary names
+    {
+        let mut rng = Rng::from_env(34);
+        let tails = [
+            "a/../secret", "files/x/../../secret", "p/%2e%2e", "p/x", "p/x/", "p/..", "x/%2e/y", "a%2fb/c", "p/a%2f..%2fb",
+            "..", "%2E%2e/z", "p/%c3%a9", "p/%ff",
+        ];
+        let counts: Vec<usize> = if thorough {
+            vec![1, 2, 63, 64, 100, 127, 128, 200, 250, 253, 254, 255, 256, 257, 258, 300, 511, 512, 1000, 1023, 1024, 4095, 4096, 10000]
+        } else {
+            vec![64, 128, 253, 254, 255, 256, 257, 512, 1024, 4096]
+        };
+        for k in counts {
+            for tail in tails.iter() {
+                for style in 0..3 {
+                    let mut path = String::new();
+                    for i in 0..k {
+                        path.push('/');
+                        match style {
+                            0 => {}                                  // a run of slashes
+                            1 => path.push((b'a' + (i % 26) as u8) as char), // k real segments
+                            _ => {
+                                if rng.chance(1, 2) {
+                                    path.push('d');
+                                }
+                            }
+                        }
+                    }
+                    // the tail starts a new segment
+                    if !path.ends_with('/') {
+                        path.push('/');
+                    }
+                    path.push_str(tail);
+                    let variant = format!("/{}", path.replace("//", "/"));
+                    id += 1;
+                    out.line(&format!("f {} {} => {}", id, hex(path.as_bytes()), f_res(&path)));
+                    id += 1;
+                    out.line(&format!(
+                        "v {} {} {} => {} ; {}",
+                        id,
+                        hex(path.as_bytes()),
+                        hex(variant.as_bytes()),
+                        f_res(&path),
+                        f_res(&variant)
+                    ));
+                    // through lookup_route: the wildcard table sees everything; the /p/{x}
+                    // table only when the prefix is empty segments
+                    let tables: [(&str, &dyn Fn(&str) -> String); 2] = [("W", &router_w), ("P", &router_p)];
+                    for (name, r) in tables {
+                        id += 1;
+                        out.line(&format!(
+                            "l {} {} {} {} => {} ; {}",
+                            id,
+                            name,
+                            hex(path.as_bytes()),
+                            hex(variant.as_bytes()),
+                            r(&path),
+                            r(&variant)
+                        ));
+                    }
+                }
+            }
+        }
+    }
+
     // ---- exhaustive small scope: all strings over { / . % 2 e E f a } up to the length bound
     exhaustive(&mut out, &mut id, if thorough { 7 } else { 6 });
 
